@@ -192,6 +192,13 @@ func (x *hW) handleStep(op int) {
 		x.opRemoveEntities(b.f, f, Entity{})
 	case 4:
 		x.opReset()
+	case 5: // dump, reset and load the entity state back: same alive set, same future handles, no components
+		d := x.w.DumpEntities()
+		x.w.Reset()
+		x.w.LoadEntities(&d)
+		for j := 0; j < x.n; j++ {
+			x.set[j], x.tgt[j] = 0, Entity{}
+		}
 	}
 }
 
@@ -217,7 +224,7 @@ func HC02_World() {
 	}
 	steps := 2 + vTier()
 	for s := 0; s < steps; s++ {
-		x.handleStep(vChoice("op", 5))
+		x.handleStep(vChoice("op", 6))
 		x.inv()
 	}
 	x.check()
